@@ -2,14 +2,19 @@
 #![allow(dead_code, unused_results, clippy::all)]
 use super::*;
 use crate::verif_support::*;
-use super::lane_alpide_frame_analyzer::verif_lane_analyzer::{stub_analyze_alpide_frame, LANE_BC, LANE_CALLS, LANE_OUTCOME};
+use super::lane_alpide_frame_analyzer::verif_lane_analyzer::{stub_analyze_alpide_frame, LN};
 
-static mut BCS_CALLS: u32 = 0;
-static mut BCS_LANES: usize = 0;
+struct BcsRec {
+    marker: u64,
+    calls: u32,
+    lanes: usize,
+}
+// one static with a unique marker (see support.rs)
+static mut BCS: BcsRec = BcsRec { marker: 0x5EED_0000_0000_0006, calls: 0, lanes: 0 };
 fn stub_validate_lane_bcs(validated_lanes: &[ValidatedLane], _m: &mut Vec<String>, _i: &mut Vec<u8>) {
     unsafe {
-        BCS_CALLS += 1;
-        BCS_LANES = validated_lanes.len();
+        BCS.calls += 1;
+        BCS.lanes = validated_lanes.len();
     }
 }
 
@@ -35,12 +40,12 @@ fn bnd1_check_alpide_data_frame() {
     let o0: u8 = kani::any();
     kani::assume(o0 <= 2);
     unsafe {
-        LANE_OUTCOME = [o0, 0, 0];
-        LANE_BC = [kani::any(), 0, 0];
-        LANE_CALLS = 0;
+        LN.outcome = [o0, 0, 0];
+        LN.bc = [kani::any(), 0, 0];
+        LN.calls = 0;
     }
     let (err_ids, err_msgs, _stats, fatal) = check_alpide_data_frame(&frame, cfg);
-    assert!(unsafe { LANE_CALLS } == 1, "[C13] every lane of the frame is analysed once");
+    assert!(unsafe { LN.calls } == 1, "[C13] every lane of the frame is analysed once");
     let l0 = id0 & 0x1F;
     assert!(err_ids.len() == (o0 == 1) as usize && err_msgs.len() == (o0 == 1) as usize, "[C13][C01][C02] exactly the lanes with errors are listed");
     if o0 == 1 {
@@ -50,5 +55,5 @@ fn bnd1_check_alpide_data_frame() {
         None => assert!(o0 != 2, "[C13][C01][C02] a lane that announced a fatal state is recorded"),
         Some(f) => assert!(o0 == 2 && f.len() == 1 && f[0] == l0, "[C13][C01] a fatal lane is recorded by its lane number (the lane-count and grouping rules use lane numbers)"),
     }
-    assert!(unsafe { BCS_CALLS } == 1 && unsafe { BCS_LANES } == (o0 == 0) as usize, "[C13] exactly the error-free, non-fatal lanes take part in the cross-lane bunch counter comparison");
+    assert!(unsafe { BCS.calls } == 1 && unsafe { BCS.lanes } == (o0 == 0) as usize, "[C13] exactly the error-free, non-fatal lanes take part in the cross-lane bunch counter comparison");
 }
